@@ -21,6 +21,10 @@ type Writer struct {
 	FailChoices int
 	// CancelOnFail: a failing call may also cancel Ctx in the same step (what net/http does).
 	CancelOnFail bool
+	// FailAt > 0: that call (counting Send and Flush together) fails, deterministically; FailCancel: it
+	// also cancels Ctx in the same step. Scenarios use this to shard the fault space over processes.
+	FailAt     int
+	FailCancel bool
 	// Returned is set (Poke) by the subscribing thread in the step in which Subscribe returned.
 	Returned *vrt.Shared
 
@@ -68,6 +72,15 @@ func (w *Writer) fault(what string) error {
 	}
 	if w.FirstErr != nil {
 		vrt.Fail("%s.%s called after an earlier call on it failed", w.Name, what)
+	}
+	if w.FailAt > 0 && w.Calls == w.FailAt {
+		if w.FailCancel {
+			w.FirstErr = fmt.Errorf("%s: %s #%d failed (context cancelled)", w.Name, what, w.Calls)
+			w.Ctx.CancelNow()
+		} else {
+			w.FirstErr = fmt.Errorf("%s: %s #%d failed", w.Name, what, w.Calls)
+		}
+		return w.FirstErr
 	}
 	if w.Calls <= w.FailChoices {
 		n := 2
@@ -127,6 +140,9 @@ type Replayer struct {
 	// PutFaults / ReplayFaults: number of leading calls whose outcome is a choice {ok, error, panic}.
 	PutFaults, ReplayFaults int
 	AllowPanic              bool
+	// Deterministic scripts: the k-th Put / Replay call returns an error (1) or panics (2).
+	PutFailAt, ReplayFailAt     int
+	PutFailKind, ReplayFailKind int
 
 	Log       []string // "P:<tag>" / "R:<writer>" in call order, with outcome suffix
 	Puts      []string // tags in Put order (as returned, i.e. with IDs)
@@ -137,6 +153,12 @@ type Replayer struct {
 func (r *Replayer) choice(nth, limit int, what string) int {
 	if r.Panicked {
 		vrt.Fail("replayer called after it panicked")
+	}
+	if what[9] == 'P' && r.PutFailAt == nth && nth > 0 {
+		return 1 + r.PutFailKind%2
+	}
+	if what[9] == 'R' && r.ReplayFailAt == nth && nth > 0 {
+		return 1 + r.ReplayFailKind%2
 	}
 	if nth > limit {
 		return 0
@@ -193,4 +215,10 @@ func (r *Replayer) Replay(sub sse.Subscription) error {
 		return r.Inner.Replay(sub)
 	}
 	return nil
+}
+
+// PreInit makes Joe start its goroutine from the calling thread, so that scenarios do not multiply
+// their state space by which thread happened to initialise him. The message goes to a topic nobody has.
+func PreInit(j *sse.Joe) {
+	_ = j.Publish(Msg("init", "init"), []string{"_init"})
 }
